@@ -23,6 +23,10 @@ type Config struct {
 	// from every registration) is run on another container in the same
 	// process: containers share nothing, so this must change nothing
 	Shadow bool `json:"shadow,omitempty"`
+	// SysClock: the container keeps dig's default (system) clock; callback
+	// Runtimes are then only bounded (0 <= Runtime <= duration of the API
+	// call), not predicted
+	SysClock bool `json:"sysclock,omitempty"`
 	// DryFalse: dig.DryRun(false) is passed explicitly (same as no option)
 	DryFalse bool `json:"dryfalse,omitempty"`
 	// DryBoth: DryRun(true) followed by DryRun(false): the later option wins
@@ -165,6 +169,9 @@ type Param struct {
 	SlT   string  `json:"slt,omitempty"`
 	Obj   []Param `json:"obj,omitempty"`
 	IsObj bool    `json:"isobj,omitempty"` // object with possibly zero fields
+	// ET: the field carries explicit empty tags (name:"" and / or group:"")
+	// for whatever it does not declare: the same as no tag
+	ET bool `json:"et,omitempty"`
 	// EmbedAt: position of the embedded dig.In among the fields of a
 	// generated parameter object (0 = first, the usual place)
 	EmbedAt int `json:"embedat,omitempty"`
@@ -195,6 +202,7 @@ type Result struct {
 	IsObj   bool     `json:"isobj,omitempty"`
 	Tag     string   `json:"tag,omitempty"`
 	Host    string   `json:"host,omitempty"`
+	ET      bool     `json:"et,omitempty"` // explicit empty name:"" / group:"" tags for what the field does not declare
 }
 
 type Opts struct {
@@ -304,6 +312,9 @@ func (c *Case) Short() string {
 	}
 	if c.Cfg.Shadow {
 		sb.WriteString("after-shadow-container ")
+	}
+	if c.Cfg.SysClock {
+		sb.WriteString("system-clock ")
 	}
 	sb.WriteString("}")
 	for i, op := range c.Ops {
@@ -506,6 +517,9 @@ func (p Param) Short() string {
 	if p.Tag != "" {
 		s += fmt.Sprintf("`raw:%s`", p.Tag)
 	}
+	if p.ET {
+		s += "`+empty tags`"
+	}
 	return s
 }
 
@@ -545,6 +559,9 @@ func (r Result) Short() string {
 	}
 	if r.Tag != "" {
 		s += fmt.Sprintf("`raw:%s`", r.Tag)
+	}
+	if r.ET {
+		s += "`+empty tags`"
 	}
 	return s
 }
